@@ -55,6 +55,8 @@ StepClauses(r, ev, R) ==
 (* ---------------- per-call property clauses ---------------------------------- *)
 FinalC01(r) ==
   LET n == r.n  v == Var(r)  out == r.out IN
+  (* randomizer_bin_und documents BCTParamError("No possible randomization") *)
+  Skip("rejected_as_not_randomizable", r.fn = "randomizer_bin_und" /\ r.raised = "BCTParamError",
   Chk("Returns",        r.raised = "",
   Chk("WellFormed",     r.malformed = "",
   Chk("DegIn",          InDegs(n, out) = InDegs(n, r.R0),
@@ -66,7 +68,7 @@ FinalC01(r) ==
   Chk("ZeroEffIsIdentity", (r.eff_out = 0 \/ r.zero_requested = 1) => out = r.R0,
   Chk("RrpIsRlattReindexed", ~v.latt \/ r.Rrp = Reindex(n, out, r.ind_rp),
   Chk("IndRpIsPermutation",  ~v.latt \/ IsPerm(n, r.ind_rp),
-  "ok")))))))))))
+  "ok"))))))))))))
 
 FinalC11(r) ==
   LET n == r.n  v == Var(r)  out == r.out
